@@ -76,6 +76,35 @@ def run(tier):
         u = next(x for x in units if x.name == name)
         inc, _ = sem.pack([u])
         out.fail(f"unit:{name}|{outcome_kind(r)}", {"program": inc, "stage": r.stage, "detail": r.detail, "stderr": r.stderr[-1500:], "tags": list(u.tags)})
+    # ---------------- (a') placement lifts of the units that built: as a method of a class, in an imported module ----------------
+    import zlib
+
+    built_units = [u for u in accepted if u.name in ran]
+    liftable = [u for u in built_units if sem.liftable(u)]
+    if tier != "thorough":
+        liftable = [u for u in liftable if zlib.crc32(u.name.encode()) % 3 == 0]
+    lifted_m = [sem.lift_method(u) for u in liftable]
+    chk_m = c01.check_units(lifted_m)
+    acc_m = [u for u, c in zip(lifted_m, chk_m) if c["check"]["status"] == "ok"]
+    _, failed_m = c01.build_packs([acc_m[i : i + c01.PACK] for i in range(0, len(acc_m), c01.PACK)])
+    for name, r in failed_m.items():
+        u = next(x for x in acc_m if x.name == name)
+        out.fail(f"lift:method|unit:{name}|{outcome_kind(r)}", {"program": sem.pack([u])[0], "stage": r.stage, "detail": r.detail, "stderr": r.stderr[-1500:], "tags": list(u.tags)})
+    _, failed_mod = c01.build_packs([liftable[i : i + c01.PACK] for i in range(0, len(liftable), c01.PACK)], module=True)
+    for name, r in failed_mod.items():
+        u = next(x for x in liftable if x.name == name)
+        out.fail(f"lift:module|unit:{name}|{outcome_kind(r)}", {"program": json.dumps(sem.pack_module([u])[0]), "stage": r.stage, "detail": r.detail, "stderr": r.stderr[-1500:], "tags": list(u.tags)})
+    multi = [u for u in built_units if not sem.liftable(u) and u.decls and not u.panics]
+    gres = pipe.run_many([(k, sem.module_lift_general(u), {"run": False}) for k, u in enumerate(multi)])
+    n_general_ok = 0
+    for k, u in enumerate(multi):
+        r = gres[k]
+        if r.ok:
+            n_general_ok += 1
+        else:
+            out.fail(f"lift:module-general|unit:{u.name}|{outcome_kind(r)}", {"program": json.dumps(sem.module_lift_general(u)), "stage": r.stage, "detail": r.detail, "stderr": r.stderr[-1500:], "tags": list(u.tags)})
+    lift_cov = {"lifted_as_method": len(acc_m), "lifted_as_method_built": len(acc_m) - len(failed_m), "lifted_into_module": len(liftable), "lifted_into_module_built": len(liftable) - len(failed_mod),
+                "multi_declaration_units_lifted_into_module": len(multi), "multi_declaration_units_lifted_built": n_general_ok}
     # ---------------- (b) C03 benign twins --------------------------------------------------------------------------
     twins = twin_programs(tier)
     reqs = [{"id": i, "op": "front", "src": src, "emit": True} for i, (sig, src) in enumerate(twins)]
@@ -124,7 +153,7 @@ def run(tier):
     cov = {
         "evaluations": len(units) + len(twins),
         "distinct_nontrivial": len(ok_sigs),
-        "rule": "programs = every unit of the semantic corpus (see C01) + the benign twin of every C03 rule x context case (quick: level 1 and a sixth of level 2; thorough: all of "
+        "rule": "programs = every unit of the semantic corpus (see C01), the single-function units again as a method of a class and as a pub function of an imported module (quick: a third), the multi-declaration units again with all declarations in an imported module + the benign twin of every C03 rule x context case (quick: level 1 and a sixth of level 2; thorough: all of "
         "level 2 and a ninth of level 3), each with a main; + 41 typed expression atoms alone, nested in 7 container forms, and in all ordered pairs within one function "
         "(packed 60 functions per program, bisected; a pack that only fails as a whole is reported as such); + assignment targets: base (local, `mut` parameter, field of `mut self`) x 11 "
         "paths of fields and indices up to four steps deep (constant and variable index) x operator (=, +=), bisected per base; domain = programs the real checker accepts; oracle = try_generate succeeds and `incan build` exits 0; "
@@ -138,6 +167,7 @@ def run(tier):
         "twins_accepted": n_acc,
         "twins_built": n_built,
         "failing_by_class": {**{k: len(v) for k, v in by_key.items()}, **{f"unit:{n}": 1 for n in failed}},
+        **lift_cov,
         **typed_cov,
     }
     pipe.prune_targets()
